@@ -278,3 +278,10 @@ def numpy_reductions_get_arrays(ctx):
         m = ctx.model.module(mn)
         ents += [f.anchor for q, f in sorted(m.funcs.items()) if '.' not in q]
     npcalls.check_closure(ctx, ents, min_sites=5)
+
+
+@rule('C18.h', min_instances=3)
+def collapse_groups_count_every_weight_once(ctx):
+    """impose_collapse groups its pairs with tools.connected and moves the weight of every member onto the key: total weight is preserved only if each point belongs to exactly one group and the key is not among its own members (shared with C16.j)"""
+    from .c16 import connected_unites_groups
+    connected_unites_groups(ctx)
